@@ -8,8 +8,8 @@
 (* run against one fresh node (the stateless matrix = one-step sessions;    *)
 (* longer sessions exercise the fee velocity limit).                        *)
 (*                                                                         *)
-(* step = [grp, fee, fam, pol, ver, pad, ins <<[kind, v]>>,                 *)
-(*         outs <<[kind, v]>>, chans <<[val, outbound, push, commit, at]>>, *)
+(* step = [grp, fee, fam, pol, ver, pad, ins <<[kind, v, slot]>>,           *)
+(*         outs <<[kind, v, slot]>>, chans <<[val, outbound, push, commit, at]>>, *)
 (*         listed, xpub, approve, jump]                                     *)
 (***************************************************************************)
 EXTENDS Onchain, SequencesExt
@@ -25,7 +25,11 @@ TinyKinds == {"U", "Ut", "Up"}                          \* foreign outputs small
 DefVal(kind, k) == IF kind \in TinyKinds THEN B(5 + k)
                    ELSE IF kind \in FundKinds THEN B(1000000 + 1000 * k)
                    ELSE B(100000 * k + 17)
-Out(kind, v) == [kind |-> kind, v |-> v]
+\* slot: which key the script is built from (0 = the output's own position; for funding kinds the
+\* channel whose keys are used, 0 = the next channel).  Outputs of one kind with the same slot carry
+\* the SAME script_pubkey (and path).
+Out(kind, v) == [kind |-> kind, v |-> v, slot |-> 0]
+OutS(kind, v, slot) == [kind |-> kind, v |-> v, slot |-> slot]
 OutsOf(kinds) == [k \in 1..Len(kinds) |-> Out(kinds[k], DefVal(kinds[k], k))]
 Chan(val, outbound, push, commit, at) ==
   [val |-> val, outbound |-> outbound, push |-> push, commit |-> commit, at |-> at]
@@ -35,7 +39,7 @@ GoodChansFor(outs) ==
 
 Skel(pol, inKinds, outs, chans, listed, xpub) ==
   [pol |-> pol, ver |-> 2, pad |-> 0,
-   ins |-> [k \in 1..Len(inKinds) |-> [kind |-> inKinds[k], v |-> Big0]],
+   ins |-> [k \in 1..Len(inKinds) |-> [kind |-> inKinds[k], v |-> Big0, slot |-> 0]],
    outs |-> outs, chans |-> chans, listed |-> listed, xpub |-> xpub]
 
 \* inputs 2.. carry k satoshi each, input 1 the rest of `total`
@@ -43,7 +47,8 @@ Oth(sk) == SumInt([k \in 1..Len(sk.ins) |-> k], LAMBDA k : IF k = 1 THEN 0 ELSE 
 Feasible(sk, total) == BLe(B(Oth(sk)), total) /\ BLe(total, U64MAX)
 SetIns(sk, total) ==
   [sk EXCEPT !.ins = [k \in DOMAIN sk.ins |->
-                        [kind |-> sk.ins[k].kind, v |-> IF k = 1 THEN BSub(total, B(Oth(sk))) ELSE B(k)]]]
+                        [kind |-> sk.ins[k].kind, slot |-> sk.ins[k].slot,
+                         v |-> IF k = 1 THEN BSub(total, B(Oth(sk))) ELSE B(k)]]]
 SumOuts(sk) == SumBig(sk.outs, LAMBDA o : o.v)
 
 CW(sk) == CodeWeight(Facts(sk))
@@ -87,7 +92,9 @@ StepsOf(grp, sk, fees, approve) ==
 \* a step with explicitly given input values
 Direct(grp, label, fam, sk, inVals) ==
   [grp |-> grp, fee |-> label, fam |-> fam, approve |-> TRUE, jump |-> FALSE]
-    @@ [sk EXCEPT !.ins = [k \in DOMAIN sk.ins |-> [kind |-> sk.ins[k].kind, v |-> inVals[k]]]]
+    @@ [sk EXCEPT !.ins = [k \in DOMAIN sk.ins |-> [kind |-> sk.ins[k].kind, slot |-> sk.ins[k].slot, v |-> inVals[k]]]]
+\* inputs paying from the same key (same previous script_pubkey)
+WithInSlots(sk, slots) == [sk EXCEPT !.ins = [k \in DOMAIN sk.ins |-> [sk.ins[k] EXCEPT !.slot = slots[k]]]]
 
 SeqsUpTo(S, n) == UNION {[1..m -> S] : m \in 0..n}
 HasOwn(ks, owns) == \E k \in DOMAIN ks : KindTab[ks[k]].own \in owns
@@ -158,6 +165,8 @@ G3unk ==
   UNION {UNION {
     StepsOf("G3", Skel(PU, <<"p2wpkh">>, <<Out(x.kind, Delta(ChanVal, x.d)), Out("U", B(7))>>,
                        <<Chan(ChanVal, x.ob, B(x.push), x.cm, 1)>>, TRUE, TRUE), {FS("one")}, ap)
+      \cup StepsOf("G3", Skel(PU, <<"p2wpkh">>, <<Out("U", B(7)), Out(x.kind, Delta(ChanVal, x.d))>>,
+                              <<Chan(ChanVal, x.ob, B(x.push), x.cm, 2)>>, TRUE, TRUE), {FS("one")}, ap)
     : ap \in BOOLEAN} : x \in SD}
 \* inputs that are not known to be segwit, with and without a channel being funded
 G3seg ==
@@ -203,7 +212,60 @@ G5 ==
     \cup UNION {StepsOf("G5", [sk0 EXCEPT !.pad = PadFor(sk0, t)], {FS("one"), FS("cap"), FS("cap+1")}, TRUE)
                 : t \in {32767, 32768, 32769}}
 
-Stateless(T) == G1(T) \cup G2(T) \cup G3(T) \cup G4 \cup G5
+\* G7: EQUAL things and ORDER - outputs repeating one script_pubkey (same / different values, adjacent
+\* or separated, 2 or 3 repeats, unknown destinations and beneficial controls), one channel's funding
+\* script twice in a transaction, inputs paying from one key with equal values
+RepA == B(10000)
+RepB == B(2000000)
+\* pattern element: <<role, slot>>; role "R" = the repeated kind, "Q" = another unknown kind, "W" = wallet change
+RepPatterns ==
+  { <<<<"R", 1>>, <<"R", 1>>>>, <<<<"W", 9>>, <<"R", 1>>, <<"R", 1>>>>, <<<<"R", 1>>, <<"W", 9>>, <<"R", 1>>>>,
+    <<<<"R", 1>>, <<"R", 1>>, <<"W", 9>>>>, <<<<"R", 1>>, <<"R", 1>>, <<"R", 1>>>>,
+    <<<<"R", 1>>, <<"W", 9>>, <<"R", 1>>, <<"R", 1>>>>, <<<<"R", 1>>, <<"Q", 2>>, <<"R", 1>>>>,
+    <<<<"R", 1>>, <<"R", 1>>, <<"Q", 2>>, <<"Q", 2>>>>, <<<<"R", 1>>, <<"R", 2>>, <<"R", 1>>>> }
+RepVal(variant, i) ==
+  CASE variant = "same" -> RepA [] variant = "ab" -> (IF i % 2 = 1 THEN RepA ELSE RepB)
+    [] variant = "ba" -> (IF i % 2 = 1 THEN RepB ELSE RepA) [] variant = "tiny" -> B(7)
+RepOuts(pat, r, variant) ==
+  [i \in 1..Len(pat) |->
+     LET kind == CASE pat[i][1] = "R" -> r [] pat[i][1] = "Q" -> (IF r = "U" THEN "Ut" ELSE "U") [] OTHER -> "W" IN
+     OutS(kind, IF kind = "W" THEN DefVal("W", i) ELSE RepVal(variant, i), pat[i][2])]
+G7rep ==
+  UNION {UNION {UNION {UNION {
+    LET on == r \in {"U", "Ut", "Wn", "W", "Ws"} IN      \* "L"/"Xn"/"X" repeated while NOT allowlisted, and allowlisted
+    StepsOf("G7", Skel(PU, <<"p2wpkh">>, RepOuts(pat, r, variant), <<>>, on, on), {FS("one")}, ap)
+      \cup (IF r \in {"L", "Xn", "X", "Lp"}
+            THEN StepsOf("G7", Skel(PU, <<"p2wpkh">>, RepOuts(pat, r, variant), <<>>, TRUE, TRUE), {FS("one")}, ap)
+            ELSE {})
+    : ap \in BOOLEAN} : variant \in {"same", "ab", "ba", "tiny"}}
+    : r \in {"U", "Ut", "Xn", "L", "Wn", "W", "Ws", "X", "Lp"}} : pat \in RepPatterns}
+\* the funding script of one channel twice: only the output at the outpoint funds it
+G7fund ==
+  UNION {UNION {
+    StepsOf("G7", Skel(PU, <<"p2wpkh">>,
+                       <<OutS("F", ChanVal, 1), OutS("F", v2, 1), OutS("W", B(300017), 9)>>,
+                       <<Chan(ChanVal, TRUE, Big0, "active", at)>>, TRUE, TRUE), {FS("one")}, ap)
+      \cup StepsOf("G7", Skel(PU, <<"p2wpkh">>,
+                       <<OutS("U", B(7), 1), OutS("F", ChanVal, 1), OutS("U", B(7), 1), OutS("F", v2, 1)>>,
+                       <<Chan(ChanVal, TRUE, Big0, "active", 2 * at)>>, TRUE, TRUE), {FS("one")}, ap)
+    : ap \in BOOLEAN} : at \in {1, 2}, v2 \in {ChanVal, B(7)}}
+\* inputs from one key, equal values (also while funding, also not known to be segwit)
+G7in ==
+  LET outsW == <<OutS("W", B(100017), 9)>>
+      outsF == <<OutS("F", ChanVal, 1), OutS("W", B(100017), 9)>>
+      chF   == <<Chan(ChanVal, TRUE, Big0, "active", 1)>>
+      dup(ic, slots, outs, chans, vals, label) ==
+        Direct("G7", label, "small", WithInSlots(Skel(PU, ic, outs, chans, TRUE, TRUE), slots), vals) IN
+  { dup(<<"p2wpkh", "p2wpkh">>, <<1, 1>>, outsW, <<>>, <<B(50009), B(50009)>>, "dup-in2"),
+    dup(<<"p2wpkh", "p2wpkh", "p2wpkh">>, <<1, 1, 1>>, outsW, <<>>, <<B(33340), B(33340), B(33340)>>, "dup-in3"),
+    dup(<<"p2wpkh", "p2tr", "p2wpkh">>, <<1, 2, 1>>, outsW, <<>>, <<B(50000), B(18), B(50000)>>, "dup-in-sep"),
+    dup(<<"p2wpkh", "p2wpkh">>, <<1, 1>>, outsF, chF, <<B(550509), B(550509)>>, "dup-in-fund"),
+    dup(<<"p2pkh", "p2pkh">>, <<1, 1>>, outsF, chF, <<B(550509), B(550509)>>, "dup-in-fund-nonsegwit"),
+    dup(<<"p2pkh", "p2pkh">>, <<1, 1>>, outsW, <<>>, <<B(50009), B(50009)>>, "dup-in-nonsegwit"),
+    dup(<<"p2wpkh", "p2wpkh">>, <<1, 1>>, outsW, <<>>, <<B(5000000), B(5000000)>>, "dup-in-overpay") }
+G7 == G7rep \cup G7fund \cup G7in
+
+Stateless(T) == G1(T) \cup G2(T) \cup G3(T) \cup G4 \cup G5 \cup G7
 
 \* G6: sessions on one node under a small hourly fee velocity limit; `jump` moves the clock
 \* past the whole window before the step
@@ -240,6 +302,6 @@ GroupSteps(T, g) ==
     [] g = "G1c" -> G1part(T, {"Xk", "Xt", "Xs", "Xx", "Xn"})
     [] g = "G1d" -> G1part(T, {"U", "Ut", "Up", "F", "Fb", "Fp"})
     [] g = "G2"  -> G2(T)
-    [] g = "G345" -> G3(T) \cup G4 \cup G5
+    [] g = "G345" -> G3(T) \cup G4 \cup G5 \cup G7
 GroupSessions(T, g) == IF g = "G6" THEN Sessions(T) ELSE {<<s>> : s \in GroupSteps(T, g)}
 =============================================================================
